@@ -131,12 +131,25 @@ def check(case, ctx):
         grid = base[order] if case["el"] % 3 else base
         shape = [(41,), (41,), (4, 10), (10, 4), (2, 5), (1, 41)][int(case["ds"] * 1e7) % 6]
         grid = O.ro(grid[:int(np.prod(shape))].reshape(shape))
+        big = int(case["ds"] * 1e8) % 8 == 0
+        if big:
+            # a powder pattern / a whole detector image worth of s values in one call (tens of thousands of elements)
+            nbig = [40001, 70000, 90000, 33000][int(case["ds"] * 1e9) % 4]
+            grid = np.linspace(0.0, 2.0, nbig)
+            if case["el"] % 2:
+                grid = grid[: (nbig // 300) * 300].reshape(nbig // 300, 300)
+            grid = O.ro(grid)
+            ctx.event("array-argument-large")
         try:
             vals = np.asarray(structure.FormFactor(el, grid), float)
         except TypeError:
             vals = None          # vectorised evaluation is a convenience of the present implementation, not part of the property
             ctx.event("array-argument-unsupported (not claimed)")
-        refv = np.array([_f(c, float(x)) for x in grid.ravel()]).reshape(grid.shape)
+        if grid.size > 1000:
+            g2 = np.asarray(grid, float) ** 2
+            refv = sum(float(c[i]) * np.exp(-float(c[i + 4]) * g2) for i in range(4)) + float(c[8])
+        else:
+            refv = np.array([_f(c, float(x)) for x in grid.ravel()]).reshape(grid.shape)
         if vals is None:
             pass
         elif vals.shape != refv.shape:
